@@ -8,6 +8,7 @@ import BeffVerif.Driver.SplitOps
 import BeffVerif.Driver.WatchOps
 import BeffVerif.Driver.SubOps
 import BeffVerif.Driver.SemOps
+import BeffVerif.Driver.H256Ops
 /-! Line-protocol driver: one request S-expression per line on stdin, one reply per line on stdout. -/
 open BeffVerif
 
@@ -38,6 +39,8 @@ def handle (req : Sexp) : Sexp :=
   | .list [.atom "watch", _, files, ops] => Driver.watchOp files ops
   | .list [.atom "sub", _, .list decls, a, b, _] => Driver.subOp decls a b
   | .list [.atom "sem", _, prog, _, .list vals] => Driver.semOp prog vals
+  | .list [.atom "h256", _, _, e1, r1, e2, r2, .list vals] => Driver.h256Op e1 r1 e2 r2 vals
+  | .list [.atom "rtd", _, e, r, _] => Driver.rtdOp e r
   | .list [.atom "loc", .str src, .atom lo, .atom hi] => Driver.locOp src (lo.toNat?.getD 0) (hi.toNat?.getD 0)
   | .list [.atom "schema-ctx", env, .list rts, .str template, container, .list ovs, .list calls, _] =>
     Driver.schemaCtxOp env rts template (match container with | .str k => some k | _ => none) ovs calls
